@@ -229,6 +229,16 @@ CHECKS = {
 PROCESS = (' Three planned shards run a second time in an interpreter started with PYTHONOPTIMIZE=1 (assert statements stripped from the library and the generated class), '
            'two over workbooks that carry number formats (Text, percent, fixed, scientific) on numbers and formulas, hidden rows and columns, comments, hyperlinks, widths, '
            'frozen panes, a filter, a validation and a conditional format, and the host-settings shards also under calendar.setfirstweekday(SUNDAY) - all with the expectations of the plain run.')
+R11 = {
+    'C03': ' The same formula text without sheet prefixes on two worksheets, and a cell reading both copies.',
+    'C05': ' Every function at 1-6 arguments with an EMPTY last argument in four spellings (1920 texts): refused, or the value of the call that writes 0 there.',
+    'C08': ' Schedules end with: grid of sheet X, an override on a cell of another sheet that X reads, grid of X again.',
+    'C10': ' Texts spelling whole numbers of twenty digits compare as those numbers.',
+    'C11': ' A fold next to SUMIFS / AVERAGEIFS / SUMIF / COUNTIFS / MATCH / INDEX over the very same area in one formula, against its two parts evaluated on their own.',
+    'C12': ' Criteria of equal value and different kind (TRUE / 1 / "1", FALSE / 0) over ranges holding all these kinds, asked of one Executor in random orders against a fresh Executor each (law, no reference). Timestamp texts with UTC offsets in criteria ranges.',
+    'C17': ' A blank cell as the text to find or to search in.',
+    'C18': ' A fifth of all cells repeats a few small values that are equal across kinds (0, 1, TRUE, FALSE, "1", 1.5).',
+}
 R10 = {
     'C02': ' A data-only sheet whose last rows hold only zeros and blanks, read through bare references, COUNT, MIN, COUNTBLANK, INDEX, areas and whole columns.',
     'C03': ' Under a raised recursion limit (30000, 512 MB thread stack): rings of 257-400 cells and rings behind chains of 245-300 cells are refused in four modes, an acyclic chain of 600 cells gives its closed-form value through the whole file and two slices.',
@@ -251,7 +261,7 @@ def main():
         if pid not in CHECKS:
             continue
         tech, text, note = CHECKS[pid]
-        text = text + EXTRA.get(pid, '') + R10.get(pid, '') + PROCESS
+        text = text + EXTRA.get(pid, '') + R10.get(pid, '') + R11.get(pid, '') + PROCESS
         checks.append({
             'property_id': pid,
             'quick_cmd': f'./check {pid} --tier quick',
